@@ -45,6 +45,12 @@ def result_sizes(n):
     for L in INPUT_LENS:
         out += [L] * 5                         # assign x5
     out.append(0)                              # clear
+    for _b in range(n):                        # the value argument aliases element b of the view itself
+        out.append(n + 1)                      # push_back(self[b])
+        for _pos in range(n + 1):
+            out.append(n + 1)                  # insert(pos,self[b])
+            out += [n, n + 1, n + 2]           # insert(pos,cnt,self[b])
+        out += list(range(n + 3))              # resize(cnt,self[b])
     return out
 
 
